@@ -119,6 +119,11 @@ class Row(object):
         return 'Row(%s, %s)' % (self.t, ', '.join(self.v))
 
 
+# Descriptions are free text the generators must never let through unescaped (XML comments may not hold '--', markup
+# characters need escaping); every described element of the synthetic models carries this one.
+NASTY_DESCRIP = 'state -- on <or> off & "q" ]]> <!-- %s {0} -- \\'
+
+
 def mkrow(table, **kw):
     cols = columns()[table]
     names = [c for c, _ in cols]
@@ -980,7 +985,7 @@ def rows_container(c, d):
     if c.kind == 'pkg':
         out = [mkrow('EP_PKG', Package_ID=c.id, Sys_ID=0, Direct_Sys_ID=0, Name=c.name, Descrip='', Num_Rng=0)]
         return out + rows_pe(c.id, c.parent, d, 7)
-    out = [mkrow('C_C', Id=c.id, Package_ID=0, NestedComponent_Id=0, Name=c.name, Descrip='', Mult=0,
+    out = [mkrow('C_C', Id=c.id, Package_ID=0, NestedComponent_Id=0, Name=c.name, Descrip=NASTY_DESCRIP, Mult=0,
                  Root_Package_ID=0, isRealized=False, Realized_Class_Path='', Key_Lett='')]
     return out + rows_pe(c.id, c.parent, d, 2)
 
@@ -991,13 +996,13 @@ def rows_pkgref(referring, referred):
 
 def rows_enum(t, i):
     e = t.enums[i]
-    return [mkrow('S_ENUM', Enum_ID=e[0], Name=e[1], Descrip='', EDT_DT_ID=t.id,
+    return [mkrow('S_ENUM', Enum_ID=e[0], Name=e[1], Descrip=NASTY_DESCRIP, EDT_DT_ID=t.id,
                   Previous_Enum_ID=t.enums[i - 1][0] if i else 0)]
 
 
 def rows_type(t, d):
     out = rows_pe(t.id, t.home, d, 3)
-    out.append(mkrow('S_DT', DT_ID=t.id, Dom_ID=0, Name=t.name, Descrip='', DefaultValue=''))
+    out.append(mkrow('S_DT', DT_ID=t.id, Dom_ID=0, Name=t.name, Descrip=NASTY_DESCRIP, DefaultValue=''))
     if t.kind == 'enum':
         out.append(mkrow('S_EDT', DT_ID=t.id))
         for i in range(len(t.enums)):
@@ -1020,7 +1025,7 @@ def rows_member(t, i):
 
 
 def rows_attr(c, a, prev, d):
-    out = [mkrow('O_ATTR', Attr_ID=a.id, Obj_ID=c.id, PAttr_ID=prev or 0, Name=a.name, Descrip='', Prefix='',
+    out = [mkrow('O_ATTR', Attr_ID=a.id, Obj_ID=c.id, PAttr_ID=prev or 0, Name=a.name, Descrip=NASTY_DESCRIP, Prefix='',
                  Root_Nam=a.name, Pfx_Mode=0, DT_ID=_same_as(d) if a.kind == 'ref' else a.dt, Dimensions='',
                  DefaultValue='')]
     if a.kind == 'ref':
@@ -1043,7 +1048,7 @@ def rows_oida(c, oid, a):
 
 def rows_class(c, d):
     out = rows_pe(c.id, c.home, d, 4)
-    out.append(mkrow('O_OBJ', Obj_ID=c.id, Name=c.name, Numb=c.numb, Key_Lett=c.kl, Descrip='', SS_ID=0))
+    out.append(mkrow('O_OBJ', Obj_ID=c.id, Name=c.name, Numb=c.numb, Key_Lett=c.kl, Descrip=NASTY_DESCRIP, SS_ID=0))
     prev = None
     for a in c.attrs:
         out += rows_attr(c, a, prev, d)
